@@ -23,7 +23,7 @@ def main():
         for X in sorted(meta['changes']):
             ch = meta['changes'][X]
             diff = os.path.join(out, X + '.diff'); demo = os.path.join(out, X + '_demo.cpp')
-            orig_wt = re.search(r'/tmp/mut/wt2?_\w+', ch['build']).group(0)
+            orig_wt = re.search(r'/tmp/mut/wt[23]?_\w+', ch['build']).group(0)
             build = ch['build'].replace(orig_wt, wt).replace(out + '/' + X + '_demo ', '/tmp/seed_demo_%s ' % prop)
             build = re.sub(r'-o \S+', '-o /tmp/seed_demo_%s' % prop, build.split('  (')[0].split('   #')[0])
             r = dict(summary=ch['summary'], needs=ch['needs'])
@@ -41,7 +41,11 @@ def main():
             assert sh('git -C /repo apply %s' % diff).returncode == 0
             try:
                 t0 = time.time()
-                c = sh(' '.join(check), cwd=V, timeout=3600)
+                # evidence / replay files of runs against a changed tree go to a scratch directory, never into /verif/evidence
+                scratch = '/tmp/seeded_out_%s' % prop
+                env = dict(os.environ, VERIF_EVIDENCE_DIR=scratch + '/evidence', VERIF_REPLAY_DIR=scratch + '/replay')
+                os.makedirs(scratch + '/evidence', exist_ok=True); os.makedirs(scratch + '/replay', exist_ok=True)
+                c = sh(' '.join(check), cwd=V, timeout=3600, env=env)
             finally:
                 sh('git -C /repo checkout -- .')
             viol = [l for l in c.stdout.split('\n') if l.startswith('VIOLATION')]
